@@ -79,6 +79,19 @@ def wide_ops(ctx: Ctx, table: list) -> list[dict]:
             bad = list(base)
             bad[rng.randrange(len(bad))] = rng.choice(alpha)
             ops.append({"op": "consistency", "kind": "iban", "t": bad})
+    # national validation through every kind of German bank: one bank code per Bundesbank method id
+    # the registry names (implemented or not), plus unlisted codes - nothing but library errors
+    import c07
+    by_method = {}
+    for code, meth in sorted(c07.de_bank_methods().items()):
+        by_method.setdefault(meth, code)
+    for meth, code in sorted(by_method.items()):
+        for _ in range(2 if ctx.quick else 10):
+            b = code + "".join(rng.choice("0123456789") for _ in range(10))
+            iban("DE" + gen.check_digits("DE", b) + b, vb=True, entries=("iban.new", "iban.validate"))
+    for code in ("00000000", "99999999"):
+        b = code + "0532013000"
+        iban("DE" + gen.check_digits("DE", b) + b, vb=True, entries=("iban.new", "iban.validate"))
     # short and degenerate texts
     for n in range(0, 8):
         for _ in range(40 if ctx.quick else 400):
